@@ -286,14 +286,14 @@ func (mr *modelReference) writeProtobuf(generation int) error {
 	data.TotalCells = int32(mr.TotalRuns())
 	data.StartingLocation = mr.generationLocation(generation)
 
-	if mr.WriteInputs {
+	if mr.WriteInputs && gen.Count > 0 {
 		shp := gen.Inputs.Shape()
 		data.Length = int32(shp[sim.DIMI_TIMESTEP])
 		data.InputColumns = int32(shp[sim.DIMI_INPUT])
 		data.InputValues = gen.Inputs.Unroll()
 	}
 
-	if mr.WriteOutputs {
+	if mr.WriteOutputs && gen.Count > 0 {
 		shp := gen.Outputs.Shape()
 		data.Length = int32(shp[sim.DIMO_TIMESTEP])
 		data.OutputColumns = int32(shp[sim.DIMO_OUTPUT])
@@ -343,12 +343,13 @@ func (mr *modelReference) WriteData(generation int) error {
 		return prefix("Cannot open generation: ", err)
 	}
 
-	if gen.Count == 0 {
-		return nil
+	if mr.OutputProcess != nil {
+		// also for an empty batch: the last generation closes and waits for the writer process
+		return mr.writeProtobuf(generation)
 	}
 
-	if mr.OutputProcess != nil {
-		return mr.writeProtobuf(generation)
+	if gen.Count == 0 {
+		return nil
 	}
 
 	if !mr.outputsInitialised {
